@@ -219,6 +219,8 @@ def build_harness(tags="verif", race=False, name=None):
     outp = os.path.join(WORK, "bin", name)
     env = dict(GOENV)
     cmd = ["go", "build", "-tags", tags, "-o", outp]
+    if os.environ.get("VERIF_COVER"):       # statement coverage of the library under the harness (bin/coverage)
+        cmd[2:2] = ["-cover", "-coverpkg=github.com/go-openapi/validate,github.com/go-openapi/validate/post,verifharness/..."]
     if race:
         env["CGO_ENABLED"] = "1"
         cmd.insert(2, "-race")
